@@ -126,6 +126,8 @@ pub struct W {
     pub record: bool,
     /// the last thing written for the current case was an observation of the current state
     pub watched: bool,
+    /// the state watched before this one (any case): target of the clone_from observation
+    pub last_watched: Option<GameState>,
 }
 
 impl W {
@@ -143,6 +145,7 @@ impl W {
             recorded: vec![],
             record: false,
             watched: false,
+            last_watched: None,
         }
     }
     pub fn stat(&mut self, k: &str, n: u64) {
@@ -276,6 +279,27 @@ impl W {
         let g = self.gen.clone();
         self.stat(&format!("states.{}", g), 1);
         observe(&mut self.out, gs, kind, &mut self.panics);
+        if kind == 0 {
+            // Clone::clone_from onto a state that held something else (the previously watched state): the result must
+            // be the source state in every recorded field, earlier boards and history included
+            let prev = self.last_watched.take();
+            let r = catch_unwind(AssertUnwindSafe(|| {
+                let mut d = match &prev {
+                    Some(p) => p.clone(),
+                    None => gs.clone(),
+                };
+                d.clone_from(gs);
+                enc_state(&d)
+            }));
+            match r {
+                Ok(v) => line(&mut self.out, 'L', &v),
+                Err(_) => {
+                    self.panics += 1;
+                    self.out.push_str("X L\n");
+                }
+            }
+        }
+        self.last_watched = Some(gs.clone());
         self.watched = true;
     }
     pub fn act(&mut self, gs: &GameState, a: &Action) -> Option<GameState> {
@@ -1784,6 +1808,23 @@ pub fn g_illegal(w: &mut W, rng: &mut Rng, n: u64) {
                 }
             }
         }
+        // half of the cases also carry material no setup can produce (a second elephant or camel of a colour, a third
+        // horse ...): accepted by the parser, often next to a trap so that captures involve the duplicates
+        if rng.chance(1, 2) {
+            for _ in 0..(1 + rng.below(3)) {
+                let t = TRAPS[rng.below(4) as usize];
+                let o = rng.chance(1, 2);
+                let k = KINDS[2 + rng.below(4) as usize];
+                let spots: Vec<usize> = std::iter::once(t).chain(nbrs(t).into_iter()).filter(|x| cells[*x].is_none()).collect();
+                if spots.len() >= 2 {
+                    let a = spots[rng.below(spots.len() as u64) as usize];
+                    cells[a] = Some((o, k));
+                    let rest: Vec<usize> = spots.iter().cloned().filter(|x| *x != a).collect();
+                    let b = rest[rng.below(rest.len() as u64) as usize];
+                    cells[b] = Some((o, k));
+                }
+            }
+        }
         let text = diagram(&cells, 2 + rng.below(5), rng.chance(1, 2));
         w.begin("illegal");
         let gs = match w.init_pos_raw(&text) {
@@ -1801,6 +1842,13 @@ pub fn g_illegal(w: &mut W, rng: &mut Rng, n: u64) {
             if let Some(g2) = w.init_pos_raw(&text) {
                 if let Some(nx) = w.act(&g2, a) {
                     w.watch(&nx, 0);
+                    let more = catch_unwind(AssertUnwindSafe(|| nx.valid_actions_no_rep())).unwrap_or_default();
+                    if !more.is_empty() {
+                        let b = more[rng.below(more.len() as u64) as usize];
+                        if let Some(n2) = w.act(&nx, &b) {
+                            w.watch(&n2, 0);
+                        }
+                    }
                 }
             }
             w.end();
